@@ -124,7 +124,7 @@ func (c *Ctx) lexRoles0() *LexRoles {
 			}
 		}
 	}
-	if lr.Advance == nil || lr.Backup == nil || lr.ToTok == nil || lr.Errorf == nil || lr.InputF == nil || lr.EOFF == nil || lr.ItemF == nil || len(ints) != 2 {
+	if lr.Advance == nil || lr.Backup == nil || lr.Errorf == nil || lr.InputF == nil || lr.EOFF == nil || lr.ItemF == nil || len(ints) != 2 {
 		lr.Err = "lexer primitives not resolved (advance/backup/toTok/errorf methods; input/pos/start/atEOF/currItem fields)"
 		return lr
 	}
@@ -152,13 +152,32 @@ func (c *Ctx) lexRoles0() *LexRoles {
 		lr.Err = "cursor fields not resolved"
 		return lr
 	}
+	// emit: the method taking a TokType that sets the current item (through toTok or directly)
 	for _, f := range c.Funcs {
-		if fnPkgPath(f) == pkgLex && isLexMethod(f) && f != lr.ToTok && c.calls(f, lr.ToTok) {
-			ps := f.Signature.Params()
-			if ps.Len() == 1 && isNamed(ps.At(0).Type(), pkgLex, "TokType") {
-				lr.Emit = f
+		if fnPkgPath(f) != pkgLex || !isLexMethod(f) || f == lr.ToTok || f.Parent() != nil {
+			continue
+		}
+		ps := f.Signature.Params()
+		if ps.Len() != 1 || !isNamed(ps.At(0).Type(), pkgLex, "TokType") {
+			continue
+		}
+		if lr.ToTok != nil && c.calls(f, lr.ToTok) {
+			lr.Emit = f
+			continue
+		}
+		for _, b := range f.Blocks {
+			for _, in := range b.Instrs {
+				if st, ok := in.(*ssa.Store); ok {
+					if fa, ok := st.Addr.(*ssa.FieldAddr); ok && fieldVar(fa.X.Type(), fa.Field) == lr.ItemF && lr.Emit == nil {
+						lr.Emit = f
+					}
+				}
 			}
 		}
+	}
+	if lr.ToTok == nil && lr.Emit == nil {
+		lr.Err = "neither a token-cutting method (TokType → Token) nor an emit method found"
+		return lr
 	}
 	// initial state: the function constant flowing into the state variable of Next
 	for _, b := range lr.Next.Blocks {
@@ -283,7 +302,7 @@ func ruleLEXPEEK(c *Ctx, r *Report) {
 				for _, in := range b.Instrs {
 					if call, ok := in.(ssa.CallInstruction); ok {
 						sc := staticCallee(call)
-						if sc == lr.Next && f != pr.ShiftM {
+						if sc == lr.Next && f != pr.ShiftM && !(pr.ShiftM == lr.Next && f == pr.ParseLoop) {
 							r.bad(rule, "parser|extra-Next|"+fnName(f), c.instrPos(in), "the lexer is advanced outside the parser's shift method")
 						}
 						if sc == lr.Peek {
@@ -487,7 +506,7 @@ func ruleLEXTOK(c *Ctx, r *Report) {
 				key := fmt.Sprintf("%s|Token{Typ:%s}", fnName(f), c.key(typ, nil))
 				pos := c.instrPos(a)
 				switch {
-				case f == lr.ToTok:
+				case f == lr.ToTok || (lr.ToTok == nil && f == lr.Emit):
 					recv := c.key(f.Params[0], nil)
 					want := fmt.Sprintf("%s.%s[%s.%s:%s.%s]", recv, lr.InputF.Name(), recv, lr.StartF.Name(), recv, lr.PosF.Name())
 					vk := c.key(val, nil)
@@ -1042,7 +1061,7 @@ func ruleLEXFIRST(c *Ctx, r *Report) {
 			r.bad(rule, key, pos, fnName(es.fn)+" can emit an empty token: "+witness+" — the stream would never advance (endless identical tokens)")
 		}
 	}
-	r.floor(rule, "emit sites", n, 9)
+	r.floor(rule, "emit sites", n, 5)
 }
 
 // WS-SET / LEX-SKIP (C09, C16)
@@ -1177,55 +1196,91 @@ func (c *Ctx) emitsConst(lr *LexRoles, s *ssa.Function, typ string) bool {
 // KW-CASE (C09)
 func ruleKWCASE(c *Ctx, r *Report) {
 	const rule = "KW-CASE"
-	r.doc(rule, "keywords are recognised on a case-normalised word (strings.ToUpper / EqualFold), the case constants are fixed points of the normalisation, and the mapping is exactly AND→TAnd, OR→TOr, NOT→TNot, TO→TTO")
+	r.doc(rule, "wherever package lex produces a keyword token type (as the argument of the emit method or as the result of a classification helper), the dominating condition compares the case-normalised word (strings.ToUpper / EqualFold) with the keyword; the mapping is exactly AND→TAnd, OR→TOr, NOT→TNot, TO→TTO")
 	lr := c.lexPreamble(r, rule)
 	if lr == nil {
 		return
 	}
 	want := map[string]string{"lex.TAnd": "AND", "lex.TOr": "OR", "lex.TNot": "NOT", "lex.TTO": "TO"}
 	found := map[string]bool{}
-	for _, s := range lr.States {
-		for _, b := range s.Blocks {
-			for _, in := range b.Instrs {
-				call, ok := in.(ssa.CallInstruction)
-				if !ok {
-					continue
-				}
-				sc := staticCallee(call)
-				if (sc != lr.Emit && sc != lr.ToTok) || len(call.Common().Args) < 2 {
-					continue
-				}
-				typ := c.key(call.Common().Args[1], nil)
-				kw, isKW := want[typ]
-				if !isKW {
-					continue
-				}
-				found[typ] = true
-				key := "keyword|" + kw
-				okNorm := false
-				var got []string
-				for _, a := range c.atomsAt(in) {
-					if a.Kind == "cmp" && a.Op == "==" && strings.HasPrefix(a.Val, `"`) {
-						got = append(got, a.String())
-						if strings.Contains(a.Subj, "strings.ToUpper(") && a.Val == fmt.Sprintf("%q", kw) {
-							okNorm = true
-						}
-					}
-					if a.Kind == "call" && a.Pos && a.Subj == "strings.EqualFold" && strings.Contains(a.Val, fmt.Sprintf("%q", kw)) {
+	check := func(in ssa.Instruction, fn *ssa.Function, typ string, subst [][]string) {
+		kw := want[typ]
+		found[typ] = true
+		key := "keyword|" + kw
+		okNorm := false
+		var got []string
+		for _, a := range c.atomsAt(in) {
+			subjs := []string{a.Subj}
+			vals := []string{a.Val}
+			for _, args := range subst {
+				subjs = append(subjs, substParams(a.Subj, args))
+				vals = append(vals, substParams(a.Val, args))
+			}
+			for si, subj := range subjs {
+				if a.Kind == "cmp" && a.Op == "==" && strings.HasPrefix(a.Val, `"`) {
+					got = append(got, subj+"=="+a.Val)
+					if strings.Contains(subj, "strings.ToUpper(") && a.Val == fmt.Sprintf("%q", kw) {
 						okNorm = true
 					}
 				}
-				if okNorm {
-					r.ok(rule, key, c.instrPos(in), "matched on the upper-cased word")
-				} else {
-					r.bad(rule, key, c.instrPos(in), fmt.Sprintf("the %s keyword token is emitted without a case-insensitive comparison of the word with %q (conditions: %s): `%s` would become a plain term", kw, kw, strings.Join(got, " ∧ "), strings.ToLower(kw)))
+				if a.Kind == "call" && a.Pos && a.Subj == "strings.EqualFold" && strings.Contains(vals[si], fmt.Sprintf("%q", kw)) {
+					okNorm = true
+				}
+			}
+		}
+		if okNorm {
+			r.ok(rule, key, c.instrPos(in), "matched on the upper-cased word")
+		} else {
+			r.bad(rule, key, c.instrPos(in), fmt.Sprintf("the %s keyword token type is produced without a case-insensitive comparison of the word with %q (conditions: %s): `%s` would become a plain term", kw, kw, strings.Join(uniq(got), " ∧ "), strings.ToLower(kw)))
+		}
+	}
+	for _, f := range c.Funcs {
+		if fnPkgPath(f) != pkgLex {
+			continue
+		}
+		// call sites of f (for helpers: the word may be normalised by the caller)
+		var subst [][]string
+		for _, g := range c.Funcs {
+			if fnPkgPath(g) != pkgLex {
+				continue
+			}
+			for _, b := range g.Blocks {
+				for _, in := range b.Instrs {
+					if call, ok := in.(ssa.CallInstruction); ok && staticCallee(call) == f {
+						var args []string
+						for _, a := range call.Common().Args {
+							args = append(args, c.key(a, nil))
+						}
+						subst = append(subst, args)
+					}
+				}
+			}
+		}
+		for _, b := range f.Blocks {
+			for _, in := range b.Instrs {
+				switch x := in.(type) {
+				case ssa.CallInstruction:
+					sc := staticCallee(x)
+					if (sc == lr.Emit || (lr.ToTok != nil && sc == lr.ToTok)) && len(x.Common().Args) >= 2 {
+						if typ := c.key(x.Common().Args[1], nil); want[typ] != "" {
+							check(in, f, typ, subst)
+						}
+					}
+				case *ssa.Return:
+					if len(x.Results) == 1 && isNamed(x.Results[0].Type(), pkgLex, "TokType") {
+						if k, ok := x.Results[0].(*ssa.Const); ok {
+							if typ := c.constName(k); want[typ] != "" {
+								check(in, f, typ, subst)
+							}
+						}
+					}
 				}
 			}
 		}
 	}
 	for typ, kw := range want {
 		if !found[typ] {
-			r.bad(rule, "keyword|"+kw, "-", "no lexer state emits "+typ+" for the keyword "+kw)
+			r.bad(rule, "keyword|"+kw, "-", "package lex never produces "+typ+" for the keyword "+kw)
 		}
 	}
 }
